@@ -19,10 +19,12 @@
    rejection implies rejection of every segmentation (C03_seg_oneshot_reject).
    REJECT direction (a rejected segmentation is rejected in one read): FALSE of the faithful model,
    three witnesses (the C03_reject_direction_refuted theorems), all replayed on the implementation; what holds
-   is C03_seg_consumed_obs_partial: under boundaries_ok the segmented run is observably equal
-   (same exception, same messages) to one read of the bytes consumed so far. *)
+   is C03_seg_consumed_obs_partial (under boundaries_ok the segmented run is observably equal -
+   same exception, same messages - to one read of the bytes consumed so far) and
+   C03_seg_reject_partial (if moreover the failing read fails on a complete line, to one read of
+   the whole stream); C03_bare_lf_doomed explains witness (b). *)
 From AV Require Import Lib.Base Lib.BytesX Generated.HttpGen Model.Http
-  Proofs.HttpSegBase Proofs.HttpSegChunk Proofs.HttpSeg Proofs.HttpSegEx.
+  Proofs.HttpSegBase Proofs.HttpSegChunk Proofs.HttpSeg Proofs.HttpSegDoom Proofs.HttpSegRej Proofs.HttpSegEx.
 Open Scope N_scope.
 
 (* ------------------------------------------------------------------ 1. invariant *)
@@ -199,6 +201,50 @@ Example C03_seg_consumed_example :
 Proof. exact ex_rejected. Qed.
 Print Assumptions C03_seg_consumed_example.
 
+(* Reject direction under explicit hypotheses.
+     feed_complete lim o s x acc : when the read x stops (returns or raises), the parser is NOT
+       looking at a partial line: the unconsumed bytes (header level) / the unconsumed chunk
+       buffer (chunk-size line, trailer line) contain a CRLF, or the stop is the LineTooLong
+       re-check of a buffered chunk line, or the CRLF expected after chunk data.
+     fail_complete ... segs : that holds for the read of the segmented run that does not return.
+   An exception raised on a complete line is raised identically (same class, same messages, same
+   parser state) however many bytes follow in the same read: *)
+Theorem C03_feed_reject_stable_partial : forall lim o s x acc s1 acc1 r,
+  wf s -> feed lim o s x acc = (s1, acc1, r) -> (forall l, r <> ROk l) ->
+  feed_complete lim o s x acc = true ->
+  forall y, feed lim o s (x ++ y) acc = (s1, acc1, r).
+Proof. exact feed_fail_app. Qed.
+Print Assumptions C03_feed_reject_stable_partial.
+
+(* hence a rejected segmentation is rejected identically by one read of the WHOLE stream (bytes
+   after the failing read included), if the failure is on a complete line and the buffered chunk
+   lines at the read boundaries pass the length re-check.  Both hypotheses are needed:
+   witnesses (a), (b) violate the first, (c) the second (C03_seg_reject_hyps_needed). *)
+Theorem C03_seg_reject_partial : forall lim o segs s acc lo s1 acc1 r1,
+  wf s -> segs <> [] ->
+  boundaries_ok lim o s segs acc = true ->
+  fail_complete lim o s segs acc = true ->
+  run_segs lim o s segs acc lo = (s1, acc1, r1) -> (forall l, r1 <> ROk l) ->
+  obs (run_segs lim o s [concat segs] acc lo) = obs (s1, acc1, r1).
+Proof. exact seg_reject. Qed.
+Print Assumptions C03_seg_reject_partial.
+
+Example C03_seg_reject_example :
+  boundaries_ok lim0 [] init [ex_a; ex_bad_b; ex_b] [] = true /\
+  fail_complete lim0 [] init [ex_a; ex_bad_b; ex_b] [] = true.
+Proof. exact ex_rejected_hyps. Qed.
+Print Assumptions C03_seg_reject_example.
+
+Example C03_seg_reject_hyps_needed :
+  fail_complete lim_a [] init [wa_1; wa_2] [] = false /\
+  fail_complete lim0 [] init [wb_1; wb_2] [] = false /\
+  boundaries_ok lim_c [] init [wc_1; wc_2] [] = false /\
+  boundaries_ok lim_a [] init [wa_1; wa_2] [] = true /\
+  boundaries_ok lim0 [] init [wb_1; wb_2] [] = true /\
+  fail_complete lim_c [] init [wc_1; wc_2] [] = true.
+Proof. exact ex_hyps_exclude. Qed.
+Print Assumptions C03_seg_reject_hyps_needed.
+
 (* (a) max_field_size = 10; header line "a:34567890" (exactly 10 bytes) with the read boundary
    between its CR and LF: LineTooLong when split (the buffered-line length check counts the CR),
    accepted in one read *)
@@ -221,6 +267,30 @@ Proof.
   exact (ex_intro _ lim0 (ex_intro _ [wb_1; wb_2] (ex_intro _ EBadMessage (ex_intro _ EInvalidHeader refute_bare_lf)))).
 Qed.
 Print Assumptions C03_reject_direction_refuted_bare_lf.
+
+(* Why (b) is only "rejection noticed earlier": once a collected header line contains a bare LF
+   (poisoned s := existsb (has_byte 10) (lines s)), no continuation of the stream, however
+   segmented, ever delivers a message: every run raises / asks, or returns normally with the
+   message list unchanged and the block still poisoned.  For ALL limits, oracles and streams. *)
+Theorem C03_bare_lf_doomed : forall lim o segs s acc lo,
+  poisoned s = true -> payload s = None ->
+  let '(s', acc', r) := run_segs lim o s segs acc lo in
+  match r with ROk _ => acc' = acc /\ poisoned s' = true /\ payload s' = None | _ => True end.
+Proof. exact doomed_run_segs. Qed.
+Print Assumptions C03_bare_lf_doomed.
+
+(* the validators behind it: a request head with a bare LF in any line is never accepted *)
+Theorem C03_bare_lf_head_rejected : forall o ls m,
+  existsb (has_byte 10) ls = true -> parse_request o ls <> POk m.
+Proof. exact parse_request_lf. Qed.
+Print Assumptions C03_bare_lf_head_rejected.
+
+(* the one-read run of witness (b) ends in such a state *)
+Example C03_bare_lf_doomed_example :
+  (let '(s, a, r) := feed lim0 [] init (wb_1 ++ wb_2) [] in (r, poisoned s, payload s, a)) =
+  (ROk [], true, None, []).
+Proof. exact ex_bare_lf_poisoned. Qed.
+Print Assumptions C03_bare_lf_doomed_example.
 
 (* (c) = C03_split_refuted_chunk_tail_recheck read as a segmentation: chunk-size line of exactly
    max_line_size bytes cut between CR and LF *)
